@@ -43,7 +43,7 @@ const c18Reps = 8
 
 type c18Grammar struct {
 	alone []string // transcript of the canary process that generated only this grammar
-	name  string // file base name, e.g. d0003.tm
+	name  string   // file base name, e.g. d0003.tm
 	path  string
 	text  string
 	desc  string
@@ -455,7 +455,7 @@ func c18ShippedCase(c *fw.Ctx) {
 
 func init() {
 	fw.Register(&fw.Check{
-		ID: "C18",
+		ID:   "C18",
 		Rule: "case 0: the five shipped grammars (3 in-process generations, 4 helper processes, byte comparison with the committed files); case 1: the C++ (flexMode on and off) and TypeScript grammars of testing/ plus option-toggled variants of them, generation only, in one interleaved batch in random order; other cases: batches of large featgram grammars chosen for map-backed paths (60-120 keywords under (class) rules, up to 12 named sets, template flags and predicates, several lookahead nonterminals, lalr(2), typed AST with up to 6 categories, C17's option vectors with parser and listener on). Every grammar: 8 in-process generations interleaved round robin with the other grammars of the batch, and 2 generations in each of 4 helper processes (GOMAXPROCS 1/2/16, GOGC 1/400), all compared with the first generation as full Writer.Write sequences. Non-trivial/distinct = distinct reference transcript (grammars that the compiler rejects or that crash generation are skipped and counted)",
 		Assumptions: []string{
 			"SHA-256 equality of a written file in another process stands for byte equality",
